@@ -26,11 +26,11 @@ SIGMA = ("\\", ";", ":", ",", '"', "%", "2", "C", "\r", "\n", "a", " ")
 NAMES = ("X-A", "SUMMARY", "ATTENDEE", "A.B", "x-lower", "123", "DTSTART", "BEGINX")
 WRAPS = {"vText": vText, "vUri": vUri, "vCalAddress": vCalAddress, "vInline": vInline}
 V20 = ("v", "", "a:b", "a;b", "a,b", "\\", "a\\", "\\,", "%2C", '"', "BEGIN:VEVENT", "END:VEVENT", "\r\nBEGIN:VEVENT",
-       "a\rb", "x\\;y", "x\\:y", "\\\\", "X=1", "mailto:a@b", " ", "\u00a0v\u00a0", "\tv\t", "\ufeffv", "a^nb^^c^'d", "\U0001F600")
+       "a\rb", "x\\;y", "x\\:y", "\\\\", "X=1", "mailto:a@b", " ", "\u00a0v\u00a0", "\tv\t", "\ufeffv", "a^nb^^c^'d", "\U0001F600", "a%2cb%3a%3b%5c", "50%25off %20 %41", "x%0Ay%0d")
 P20 = ("p", "", "a:b", "a;b", "a,b", "\\", "a\\", "\\,", "%3A", '"', 'a"b', "a b", "a\rb", "a\nb", "\\;", "\\:", "\\\\",
        "X=1:y", ";X=1", "BEGIN:VEVENT", "\u00a0", "p\u2003", "\ufeffp",
        # RFC 6868 look-alikes (written raw, must come back raw), a non-BMP character, a value ending with a backslash that needs quoting
-       "a ^^ b", "x^n: y", "it^'s a", "^", "\U0001F600", "\U0001F600 x", "c:\\dir\\")
+       "a ^^ b", "x^n: y", "it^'s a", "^", "\U0001F600", "\U0001F600 x", "c:\\dir\\", "a%2cb%3a%3b%5c", "50%25off%20%41", "x%0Ay")
 TYPED = (("vInt", 5), ("vInt", -2147483648), ("vDDD", "dt"), ("vDDD", "date"), ("vDDD", "td"), ("vRecur", None),
          ("vGeo", None), ("vCategory", ("a,b", "c;d", "e\\")), ("vBoolean", True), ("vFloat", 1.5))
 
